@@ -559,9 +559,12 @@ impl ParsedValue {
         key_path: &KeyPath,
     ) -> Result<Self> {
         match self {
-            ParsedValue::Default | ParsedValue::ForeignKey(_) | ParsedValue::Literal(_) => {
-                Ok(self.clone())
-            }
+            ParsedValue::Default | ParsedValue::Literal(_) => Ok(self.clone()),
+            ParsedValue::ForeignKey(inner) => match &*inner.borrow() {
+                // an already resolved foreign key is part of the value, the args apply to it too.
+                ForeignKey::Set(inner) => inner.populate(args, foreign_key, locale, key_path),
+                ForeignKey::NotSet(_, _) => Ok(self.clone()),
+            },
             ParsedValue::Variable { key, formatter } => match args.get(&*key.name) {
                 Some(value) => Ok(value.clone()),
                 None => Ok(ParsedValue::Variable {
